@@ -2,12 +2,14 @@
      C <sexp> <text>   tree (canonical surface form of a real tree) and the text the real `str()` produced for it →
                        "<good>\t<first bad triple or ->\t<model print text>\t<lex(text) = model tokens>\t<parse(model print)>"
      STR <hex>         a string value: "<text the printer writes>\t<VALUE v | NOTOKEN: what lexing and building that text gives>"
+     QRY <text> <str>  a query text and the real printer's text for it (query layer, Model/Query.lean)
      B                 every (parent, operand position, child) combination of the fragment's operators whose witness tree fails
                        the computed criterion: "<parent>\t<pos>\t<child>\t<witness sexp>\t<min text>\t<model print>\t<reparse>"
 -/
 import UtapModel.Model.Sexp
 import UtapModel.Model.PrintModel
 import UtapModel.Model.StrLit
+import UtapModel.Model.Query
 open UtapModel UtapModel.Pratt UtapModel.ExprTable UtapModel.ExprGrammar UtapModel.PrintModel
 
 def tokOfName (n : String) : Nat := tokId n
@@ -165,6 +167,19 @@ def stepLine (line : String) : List String :=
         let lexeq := match lexExpr text with | some ts => decide (ts = toks) | none => false
         let re := match parseTop utapT toks with | some e' => (toK genData e').str | none => "REJECT"
         ["\t".intercalate [toString g, bad, toksText toks, toString lexeq, re]]
+  | ["QRY", text, real] =>
+    -- a query text and the text the real `str()` produced for its tree →
+    -- "<kind tree>\t<wf>\t<model print text>\t<lex(real str) = model tokens>\t<parse(model print) = the tree>"   |   REJECT
+    match lexQuery text with
+    | none => ["REJECT lex"]
+    | some ts =>
+      match UtapModel.Query.parseQ ts with
+      | none => ["REJECT parse"]
+      | some q =>
+        let toks := UtapModel.Query.qprint q
+        let lexeq := match lexQuery real with | some ts' => decide (ts' = toks) | none => false
+        let re := decide (UtapModel.Query.parseQ toks = some q)
+        ["\t".intercalate [(UtapModel.Query.qToK q).str, toString q.wf, UtapModel.Query.toksTextQ toks, toString lexeq, toString re]]
   | ["B"] => badLines ++ ["END"]
   | ["STR", hex] =>
     -- a string value (hex of its code points' bytes, ASCII only): the text the printer writes for it and what comes back
